@@ -111,7 +111,7 @@ GEN_MANY = [
 
 
 GEN_LONG = [
-    gen("vest100", 16, 60, D=100, Templates={"F100", "B100"}, MaxAuc=2, Prices={50, 100, 150}, Amts={1, 7, 20}, CapSet={30, 50}, MaxBids=4,
+    gen("vest100", 16, 60, D=100, Templates={"F100", "B100"}, MaxAuc=2, Prices={50, 100, 150}, Amts={1, 7, 20}, CapSet={20, 30}, MaxBids=4,
         Tmax=260, Jump=45, CreateUntil=3, StartOffsets={0, 1}, Dur=3, KindBag=("<-", "BagBids")),
     gen("ext30", 16, 90, Templates={"B30"}, MaxAuc=1, Prices={1, 2, 3}, Amts={1, 2, 3}, CapSet={5, 20}, MaxBids=8, Tmax=60, Jump=1,
         CreateUntil=1, StartOffsets={0}, Dur=2, KindBag=("<-", "BagBids")),
@@ -156,7 +156,7 @@ PLANS = {
     "C16": dict(mc=[MC_BATCH_Q, MC_FIXED_Q], tc=[TC_EXT_Q], tc_max=2500,
                 gen=GEN_GENERAL + [dict(g, name=g["name"] + "Q", consts=dict(g["consts"], WithQueries=True, KindBag=("<-", "BagQueries")))
                                    for g in scale(GEN_GENERAL, 0.6)]),
-    "C18": dict(mc=[MC_INVALID1_Q, MC_INVALIDF_Q], gen=GEN_GENERAL + GEN_PARAMS, tc=[TC_FIXEDI_Q, TC_MODIFY_Q, TG_NEARF_Q, TG_NEARB_Q], tc_max=2500),
+    "C18": dict(mc=[MC_INVALID1_Q, MC_INVALIDF_Q], gen=GEN_GENERAL + GEN_PARAMS + GEN_LONG[:1], tc=[TC_FIXEDI_Q, TC_MODIFY_Q, TG_NEARF_Q, TG_NEARB_Q], tc_max=2500),
     "C19": dict(mc=[MC_MULTI_Q], gen=GEN_GENERAL, tc=[TC_MULTI_Q, TC_MULTIB_Q, TG_MULTI_Q], tc_max=4000),
 }
 
@@ -317,6 +317,8 @@ def accumulate_nontrivial(stats, t):
                         bump("settled_by_rate_rule")
                     if y["status"] == "Vesting":
                         bump("vesting_created")
+                        if len(r["st"]["vqs"][i]) >= 50:
+                            bump("vesting_created_50plus_instalments")
                     if x["type"] == "B" and y["matchedPrice"] > 0:
                         bump("batch_sold")
                 if x["status"] == "Started" and y["status"] == "Started" and len(y["ends"]) > len(x["ends"]):
@@ -374,7 +376,7 @@ REQUIRED = {
     "C06": ["settled_fixed", "Bid_ok", "Bid_rejected"],
     "C07": ["block_with_terminal_auction", "block_fault_hit", "settled_batch"],
     "C08": ["opened", "settled_batch", "settled_fixed", "vesting_finished", "Cancel_ok", "extended"],
-    "C09": ["vesting_created", "instalments_released", "vesting_finished"],
+    "C09": ["vesting_created", "instalments_released", "vesting_finished", "vesting_created_50plus_instalments"],
     "C10": ["MsgAddAllowed_rejected", "Bid_ok", "AddAllowed_ok"],
     "C11": ["Modify_ok", "Modify_rejected"],
     "C12": ["Cancel_ok", "Cancel_rejected"],
